@@ -137,30 +137,42 @@ def ref_single(ki, ko, in_m, out_m, hs):
     return ("completed", False) if ok else ("shouldrun", True)
 
 
-def single_batch(acc, batch, ranks=3):
+def single_batch(acc, batch, ranks=3, epoch=None):
+    """epoch=(base, step): modification times base+step*rank instead of the default 2017 quarter-seconds — around the epoch, a file
+    dated exactly 0 (or before 1970) is an ordinary existing file."""
     from mc.runner import worker_scratch
 
     scratch = worker_scratch("c01")
     R = list(range(1, ranks + 1))
+    saved = (gwfh.MTIME_BASE, gwfh.MTIME_STEP)
+    if epoch is not None:
+        gwfh.MTIME_BASE, gwfh.MTIME_STEP = epoch
+    try:
+        _single_batch(acc, batch, R, scratch, epoch)
+    finally:
+        gwfh.MTIME_BASE, gwfh.MTIME_STEP = saved
+
+
+def _single_batch(acc, batch, R, scratch, epoch):
     for ki, ko, si, so in batch:
         for in_m in itertools.product(R, repeat=ki):
             for out_m in itertools.product([None] + R, repeat=ko):
                 for hs in HASH_STATES:
                     exp = ref_single(ki, ko, in_m, out_m, hs)
                     for bs in B_STATES:
-                        case = dict(kind="single", ki=ki, ko=ko, si=si, so=so, in_m=in_m, out_m=out_m, hs=hs, bs=bs)
+                        case = dict(kind="single", ki=ki, ko=ko, si=si, so=so, in_m=in_m, out_m=out_m, hs=hs, bs=bs, **(dict(epoch=list(epoch)) if epoch else {}))
                         try:
                             obs = eval_single(ki, ko, si, so, in_m, out_m, hs, bs, scratch)
                         except Exception as e:  # a crash is an observation, not a harness error
                             obs = ("exception", type(e).__name__)
                         acc.case(
-                            key=(ki, ko, in_m, out_m, hs),  # distinct semantic cases (shape/backend are metamorphic copies)
+                            key=(ki, ko, in_m, out_m, hs, epoch),  # distinct semantic cases (shape/backend are metamorphic copies)
                             outcome=str(obs),
                             sample=case,
                         )
                         if obs != exp:
                             acc.violation(
-                                sig=dict(kind="single", ko=ko, so=so if ko == 0 else "*", exp=exp[0], obs=obs[0]),
+                                sig=dict(kind="single", ko=ko, so=so if ko == 0 else "*", exp=exp[0], obs=obs[0], **(dict(epoch=True) if epoch else {})),
                                 case=case,
                                 expected=exp,
                                 observed=obs,
@@ -335,6 +347,69 @@ def eval_cli(ki, ko, si, so, in_m, out_m, hs):
     return (st, sub == ["T"] if isinstance(sub, list) else sub)
 
 
+def cli2_batch(acc, batch):
+    """Two targets T -> U through the real CLI with spec hashing on: every combination of (never recorded, recorded same, recorded for
+    another script) for both, files fresh. `gwf run`, then every job runs to success in order, then `gwf status` / `gwf run`:
+    "unchanged since last submitted" must hold for exactly what that run submitted — nothing is submitted a second time."""
+    from mc import cliworld as CW
+    from mc import simsched
+    from mc import world as W
+
+    for hs_t, hs_u in batch:
+        wf = W.Workflow([W.T("T", ["src"], ["t"], spec="echo T\n"), W.T("U", ["t"], ["u"], spec="echo U\n"), W.T("V", ["src"], ["v"], spec="echo V\n")])
+        hashes = {"V": W.sha1("echo V\n")}
+        for n, hs in (("T", hs_t), ("U", hs_u)):
+            if hs == "same":
+                hashes[n] = W.sha1(f"echo {n}\n")
+            elif hs == "diff":
+                hashes[n] = W.sha1("old")
+        w = W.World(wf, files={"src": (1, "s"), "t": (2, "t"), "u": (3, "u"), "v": (2, "v")}, conf={"backend": "slurm", "use_spec_hashes": True}, hashes=hashes)
+        stale_t = hs_t != "same"
+        stale_u = stale_t or hs_u != "same"
+        exp_first = {"T": "shouldrun" if stale_t else "completed", "U": "shouldrun" if stale_u else "completed", "V": "completed"}
+        case = dict(kind="cli2", hs_t=hs_t, hs_u=hs_u)
+        problems = []
+        with W.Session(w) as s:
+            r0 = s.gwf(["status"])
+            rows0 = W.parse_status(r0.stdout)
+            r1 = s.gwf(["run"])
+            subs = sorted(e["name"] for e in s.sim.journal_submits())
+            w1 = s.snapshot()
+        if rows0 != exp_first:
+            problems.append(f"status before the run {rows0}, expected {exp_first}")
+        exp_subs = sorted(n for n in ("T", "U") if exp_first[n] == "shouldrun")
+        if r1.exit_code != 0 or subs != exp_subs:
+            problems.append(f"run submitted {subs} (exit {r1.exit_code}), expected {exp_subs}")
+        # every job succeeds, in dependency order, each creating its outputs
+        sim = simsched.Sim(w1.sim)
+        progress = True
+        while progress:
+            progress = False
+            for a, jid in sim.enabled():
+                if a in ("start", "finish_ok"):
+                    sim.step(a, jid)
+                    if a == "finish_ok":
+                        clock = w1.clock() + 1
+                        for o in w1.wf.by_name(w1.sim["jobs"][jid]["name"]).flat("outputs"):
+                            w1.files[o] = (clock, "made")
+                    progress = True
+                    break
+        with W.Session(w1) as s:
+            r2 = s.gwf(["status"])
+            rows2 = W.parse_status(r2.stdout)
+            r3 = s.gwf(["run"])
+            subs3 = sorted(e["name"] for e in s.sim.journal_submits())
+        acc.extra["cli_invocations"] += 4
+        if rows2 != {"T": "completed", "U": "completed", "V": "completed"}:
+            problems.append(f"after the jobs succeeded status shows {rows2}")
+        if subs3:
+            problems.append(f"a second run submits {subs3} although nothing changed since the last submission")
+        acc.case(key=("cli2", hs_t, hs_u), outcome=f"cli2 first={len(exp_subs)} ok={not problems}", sample=case)
+        if problems:
+            acc.violation(sig=dict(kind="cli2", what=problems[0].split(" ")[0] + " " + problems[0].split(" ")[1]), case=case, observed=problems,
+                          msg=f"T -> U with recorded hashes T:{hs_t} U:{hs_u}: {problems}")
+
+
 def cli_batch(acc, batch, ranks=3):
     R = list(range(1, ranks + 1))
     for ki, ko, si, so in batch:
@@ -370,9 +445,13 @@ def run(ctx):
         "state; cli: real files through `gwf status` and `gwf run`; non-trivial = all (every case has a defined expected answer)"
     )
     ctx.pmap(me, "single_batch", single_items(K), ranks=3)
+    plain = [it for it in single_items(K) if it[2] in ("list", "list0") and it[3] in ("list", "list0")]
+    for ep in ((-1.0, 1.0), (-3.0, 1.0)):  # ranks 1..3 -> 0, 1, 2 and -2, -1, 0 seconds since the epoch
+        ctx.pmap(me, "single_batch", plain, ranks=3, epoch=ep)
     nm = [(2, 3)] if quick else [(2, 3), (3, 3), (2, 4)]
     for n, m in nm:
         ctx.pmap(me, "wf_batch", wf_items(n, m), ranks=3 if (n, m) != (2, 4) else 2, hash_modes=(None, "on") if (n, m) == (2, 3) else (None,))
+    ctx.pmap(me, "cli2_batch", [(a, b) for a in ("none", "same", "diff") for b in ("none", "same", "diff")], chunk=1)
     ctx.pmap(me, "cli_batch", cli_items(1, 2 if quick else 2), ranks=2 if quick else 3)
     ctx.bound = dict(single_K=K, ranks=3, workflows=nm, cli="k_in<=1,k_out<=2,ranks=%d" % (2 if quick else 3))
     ctx.assumptions = [
@@ -391,6 +470,8 @@ def replay(case):
         _replay_single(acc, c)
     elif kind == "wf":
         _replay_wf(acc, c)
+    elif kind == "cli2":
+        cli2_batch(acc, [(c["hs_t"], c["hs_u"])])
     elif kind == "cli":
         exp = ref_single(c["ki"], c["ko"], tuple(c["in_m"]), tuple(c["out_m"]), c["hs"])
         obs = eval_cli(c["ki"], c["ko"], c["si"], c["so"], tuple(c["in_m"]), tuple(c["out_m"]), c["hs"])
@@ -401,6 +482,13 @@ def replay(case):
 
 def _replay_single(acc, c):
     from mc.runner import worker_scratch
+
+    ep = c.pop("epoch", None)
+    if ep:
+        a2 = type(acc)()
+        single_batch(a2, [(c["ki"], c["ko"], c["si"], c["so"])], ranks=3, epoch=tuple(ep))
+        acc.violations += [v for v in a2.violations if all(list(v["case"][k]) == list(c[k]) if isinstance(c[k], (list, tuple)) else v["case"][k] == c[k] for k in ("in_m", "out_m", "hs", "bs"))]
+        return
 
     exp = ref_single(c["ki"], c["ko"], tuple(c["in_m"]), tuple(c["out_m"]), c["hs"])
     try:
